@@ -541,6 +541,42 @@ PENDING_REASON = ("not claimed yet: model, theorems and correspondence for this 
                   "is quiet on the unchanged tree")
 
 
+# second round: what was added per property (appended to the claim text; DESIGN.md I.9 and the I.4 rows)
+ROUND2 = {
+    "C05": "Round 2: clamp_power's Lean definition is additionally GENERATED from the Python source on every run "
+           "(harness/py2lean.py) and proved equal to the hand model, with the clamp laws restated on it (C05_gen_*); "
+           "distributed, complete step: only stations with a connected vehicle carry power, no discharge without V2G "
+           "(C05_distributed_only_connected / _no_v2g_discharge).",
+    "C07": "Round 2: the hypotheses Keeps* on the strategy's own action are discharged for the concrete strategy models "
+           "(C07_*_keeps, C07_strategy_keeps_connectors; distributed restores the raised limit; peak_load_window rewrites "
+           "gc.window by design - stated with a witness), so C07_effect_step / _in_force / _limit_lower_only hold for five "
+           "concrete strategies without hypotheses; every step tie carries a digest of the event-set state and the queue.",
+    "C08": "Round 2: the reported SoC of an absent vehicle (disconnect back-fill of Scenario.run) is modelled and tied "
+           "(C18_disconnect_*).",
+    "C09": "Round 2: run-level theorems on the ITERATED step model (induction over the step list, no bound): greedy leaves "
+           "with at least min(desired - EPS, SoC reachable at full available power) for the first vehicle / with ample or "
+           "shared headroom, SoC monotone, balanced reaches the desired SoC at departure (C09_*_run_*), distributed "
+           "corollaries; iterated model tied over whole standing periods (rulerun); demand functions generated from the "
+           "source (C09_gen_*). Finding GRD1: greedy with a vehicle minimum charging power stalls within one "
+           "minimum-power step below the desired SoC (bound proved, keyed by mechanism).",
+    "C10": "Round 2: Model/RuleSpec.lean states the documented rule as a readable executable spec and "
+           "C10_ruleStep_refines_spec proves the transliterated step EQUAL to it (all outputs, every exception) on every "
+           "world with unique ids and priced connectors; the property's sentences are corollaries read off the spec; the "
+           "spec runs as a third party in the stream (bit level).",
+    "C13": "Round 2: aggressive_round generated from the source and proved equal to the hand model (C13_gen_*).",
+    "C14": "Round 2: over a whole run (induction over the step list, arrivals/departures between steps) the projection of "
+           "the distributed run to a connector equals the stand-alone balanced/greedy run of the restricted world, and is "
+           "independent of the other connectors (C14_distributed_run_*); at most number_cs stations carry power after the "
+           "complete step; delegation stated against the C10 spec; iterated model tied over standing periods.",
+    "C17": "Round 2: Scenario/Components/Strategy constructors, class_from_str and simulate's option handling are in the "
+           "model with exact streams; C17_ctor_* (n_intervals / stop_time arithmetic, exactly-one-key assertion) and with "
+           "C17_run_shape: a run without error reports exactly the configured number of steps.",
+    "C18": "Round 2: split_feedin generated from the source and proved equal to the hand model (C18_gen_*); disconnect "
+           "back-fill = linear interpolation between the SoC at departure and at arrival, connected rows never rewritten "
+           "(C18_disconnect_*).",
+}
+
+
 def main():
     props = [json.loads(l) for l in open(os.path.join(HERE, "properties.jsonl"))]
     checks, na = [], []
@@ -548,6 +584,8 @@ def main():
         pid = p["id"]
         if pid in CLAIMED:
             text, tech, ref = CLAIMED[pid]
+            if pid in ROUND2:
+                text = text + " " + ROUND2[pid]
             checks.append({
                 "property_id": pid,
                 "quick_cmd": "./check %s --tier quick" % pid,
